@@ -214,11 +214,30 @@ def check(sc, r):
     if not closes:
         out.append(C.v("system", "C09/system/%s/never-closed" % sc["phase"], "the acceptor never closed the connection (timeout %.3f, peer saw %s)" % (T, r.obs.get("peer_saw"))))
         return out
-    el = closes[0]["t"] - t0
+    # The timer under test is started by the provider, not by the scripted peer: take the start instant from the
+    # provider's own history (the peer thread - or the thread that accepted the connection - may have been held up).
+    # t_lo <= true start <= t_hi; "early" is judged against t_lo, "late" against t_hi.
+    tr = r.evts("acc0", "EVT_FSM_TRANSITION")
+    t_lo = t_hi = t0
+    if sc["phase"] == "sta2":
+        a = [h["t"] for h in tr if h["fsm_event"] == "Evt5"]
+        if a:
+            t_lo = t_hi = a[0]
+    elif sc["phase"] == "sta13":
+        a = [h["t"] for h in tr if h["action"] == "AE-8"]
+        if a:
+            t_lo = t_hi = a[0]
+    else:
+        rx = [h["t"] for h in r.evts("acc0", "EVT_DATA_RECV")]
+        e6 = [h["t"] for h in tr if h["fsm_event"] == "Evt6"]
+        if rx and e6:
+            t_lo, t_hi = rx[-1], max(e6[0], rx[-1])
+    el_lo = closes[0]["t"] - t_hi     # smallest elapsed time the timer can have measured
+    el = closes[0]["t"] - t_lo        # largest
     margin = 0.06 + 0.05 * T
     if el < T - 0.012:
         out.append(C.v("system", "C09/system/%s/early" % sc["phase"], "closed after %.4f s of elapsed time, timeout is %.4f (jump %+.1f at %.2f T)" % (el, T, sc["jump"], sc["jump_at_frac"])))
-    elif el > T + margin:
+    elif el_lo > T + margin:
         out.append(C.v("system", "C09/system/%s/late" % sc["phase"], "closed after %.4f s of elapsed time, timeout is %.4f (jump %+.1f at %.2f T)" % (el, T, sc["jump"], sc["jump_at_frac"])))
     return out
 
